@@ -1,6 +1,6 @@
 #!/usr/bin/env python3
 """Re-run every seeded change against the quick check of its property at the current /repo HEAD.
-   tools/seeded_regress.py [-j N] [Cxx ...]     writes scratch/seeded_regress.json and prints a summary.
+   tools/seeded_regress.py [-j N] [--resume log] [--match a,b] [Cxx ...]     writes scratch/seeded_regress.json and prints a summary.
    For each seeded/<Cxx>-<name>/patch.diff: scratch worktree of /repo under /tmp, git apply, ./check Cxx quick with
    VERIF_REPO (VERIF_SKIP_PROOF=1: the proofs do not depend on the checkout), expects exit 1 + VIOLATION; the worktree
    and the shadow harness are removed afterwards."""
@@ -15,6 +15,9 @@ skip = set()
 if args and args[0] == "--resume":
     skip = {l.split(" ")[0] for l in open(args[1]) if " detected " in l or " MISSED " in l}
     args = args[2:]
+if args and args[0] == "--match":          # only seeded directories whose name contains one of the comma-separated substrings
+    pats = args[1].split(","); args = args[2:]
+    dirs = [d for d in dirs if any(x in os.path.basename(d) for x in pats)]
 if args:
     dirs = [d for d in dirs if os.path.basename(d).split("-")[0] in args]
 dirs = [d for d in dirs if os.path.basename(d) not in skip]
